@@ -11,6 +11,28 @@ def install(r):
         I.st.assume(t >= 0)
         return SFloat(t)
 
+    @r.ext("datetime:datetime.now", "datetime:datetime.utcnow")
+    def _now(I, a, k):
+        t = fresh_int("now")
+        I.st.assume(t >= 0)
+        return SInt(t)
+
+    @r.ext("datetime:timedelta")
+    def _timedelta(I, a, k):
+        # durations are integers (an abstract number of time units); only non-negativity of sums matters
+        f = z3.Function("timedelta", z3.IntSort(), z3.IntSort())
+        tot = z3.IntVal(0)
+        for v in list(a) + list(k.values()):
+            try:
+                tot = tot + z3.ToInt(I.ops.as_real(v) * 1000)
+            except Exception:
+                tot = tot + fresh_int("td")
+        return SInt(tot)
+
+    @r.ext("ulid:ULID", "uuid:uuid4")
+    def _ulid(I, a, k):
+        return I.ops.opaque_str("ulid")
+
     @r.ext("logging:getLogger")
     def _get_logger(I, a, k):
         return SOpaque("logger")
